@@ -175,8 +175,7 @@ def run(ctx):
                 e["policy"] = f"seed={seed},weights={w}"
                 events.append(e)
                 if cores > 1 and log and not deadlock and res is not None:
-                    nr_send = [x["chunk"] for x in log if x["ev"] == "r_send"]
-                    nc = (len(nr_send) if e["exit"] == 0 else (max(nr_send) + 2 if nr_send else 1))
+                    nc = RC.infer_nc(log, e["exit"])
                     tid = len(records)
                     records.append(RC.trace_record(tid, log, cores, nc, e["exit"],
                                                    ["none", "badchunk", "readerfail", "startfail"]))
@@ -238,6 +237,12 @@ def real_runs(ctx, rng):
         if r["timed_out"]:
             ctx.violation("Terminates", "C12:Terminates:real-process", obs)
             continue
+        if cores > 1 and r["logs"]:
+            nc = RC.infer_nc(r["logs"].get("R", []), r["exit"])
+            ok, det = RC.validate_mp_run(ctx, r["logs"], cores, nc, ["none", "badchunk", "readerfail", "startfail"])
+            ctx.extra["real_process_traces_explained_by_Runner"] = ctx.extra.get("real_process_traces_explained_by_Runner", 0) + int(ok)
+            if not ok:
+                ctx.extra.setdefault("real_process_traces_not_explained", []).append(dict(obs, detail=det))
         if wf is None:
             # plain truncation: decide well-formedness with the same definition, in Python only to pick
             # the expected class of this *real* run (the TLA+ clause judged the virtual runs)
